@@ -39,7 +39,9 @@ def gen_case(rng, cfg, idx):
         c = C05.gen_case(rng, {"nstmts": cfg["nstmts"], "two_epoch": "random", "bad_w": 0.4}, idx)
         if c is None:
             return None
-        return {"kind": "hist", "prog": c["prog"], "L": c["L"], "kseed": rng.randrange(1 << 30)}
+        # (a second epoch whose read-out could not be built leaves statements after the last backward: the history ends at that backward)
+        prog = c["prog"][: c["bws"][-1] + 1]
+        return {"kind": "hist", "prog": prog, "L": prog[-1]["tgt"], "kseed": rng.randrange(1 << 30)}
     steps = []
     n = rng.randint(4, 14)
     acts = ["backward", "view", "read", "nullgrad", "use", "inplace", "backward", "untracked", "useview", "readview", "backward_view", "inplace_view",
@@ -152,6 +154,8 @@ def run_iter(case, cnt, viol, sets):
 
 def run_hist(case, cnt, viol, sets):
     prog = case["prog"]
+    while prog and prog[-1]["k"] != "backward":
+        prog = prog[:-1]
     it = Interp("mg")
     for i_, st_ in enumerate(prog[:-1]):   # (two-epoch histories: everything up to the LAST backward, earlier backward passes included)
         if st_.get("expect_raise"):
